@@ -817,8 +817,7 @@ def triggers(graph, fmt, base=None, bind=None, extra=None):
     """Finding ids whose *input-side* trigger holds (see known_findings.d/C03.json).  Ordered."""
     out = []
     lits = list(literals_of(graph))
-    if any(x[3] is not None and not is_canonical(x[1], x[3]) for x in lits):
-        out.append("F15c")
+    f15c = any(x[3] is not None and not is_canonical(x[1], x[3]) for x in lits)   # reported last: the most general one
     if (extra or {}).get("canon"):
         # longturtle canon=True re-reads the graph through N-Triples first: the Turtle writer sees normalised literals
         lits = [list(x[:1]) + list(_norm_lit(tuple(x))[1:]) for x in lits]
@@ -867,6 +866,8 @@ def triggers(graph, fmt, base=None, bind=None, extra=None):
         out.append("F15g")
     if fmt in XML_FAMILY + ("json-ld",) and base is not None and bad_relative_any(graph, base):
         out.append("F15g")
+    if f15c:
+        out.append("F15c")
     return out
 
 
@@ -979,6 +980,8 @@ def residual_ok(graph, fmt, base, bind, tr, A, B, exc):
         B = {t for t in B if not touches(t, lambda u: u in bad or u not in inputs)}
     if any(f in tr for f in ("F15j", "F15n", "F15l")):
         ca, cb = _cells(A), _cells(B)
+        cb |= {c for c in ca if c[0] == "I"}      # an IRI that is a list cell on the input side keeps its name
+        ca |= {c for c in cb if c[0] == "I"}
         if "F15l" in tr:
             # a further reference to a list head is written as rdf:nodeID of a node that is never described: references to
             # property-less blank nodes are set aside on both sides
